@@ -43,7 +43,10 @@ Init0 ==
     dv |-> <<>>,                                                              \* defvec
     map |-> <<>>,                                                             \* map
     chan |-> <<>>, emit |-> TRUE,                                             \* wrapper
-    dropped |-> {}, bad |-> {},                                               \* ghost: destroyed cids; anomalies
+    dead |-> {},                                                              \* entities deleted so far
+    faulted |-> FALSE,                                                        \* a destructor has panicked: leaks may exist
+    dropped |-> {}, bad |-> {}, returned |-> {},                              \* ghost: destroyed / handed-back cids; anomalies
+    zc |-> 0, zlib |-> 0, zharn |-> 0,                                        \* zero-sized values: created / dropped by library / by caller
     ncid |-> 0, nval |-> 100 ]
 
 FnSet(f, k, v) == [x \in DOMAIN f \cup {k} |-> IF x = k THEN v ELSE f[x]]
@@ -57,9 +60,13 @@ SwapRemove(q, k) == IF k = Len(q) THEN SubSeq(q, 1, Len(q) - 1)
                     ELSE [j \in 1..(Len(q) - 1) |-> IF j = k THEN q[Len(q)] ELSE q[j]]
 
 \* ghost: a destructor runs on value v
-Drop(st, v) == IF v[1] = 0 THEN st
+Drop(st, v) == IF Kind = "null" THEN [st EXCEPT !.zlib = @ + 1]
+               ELSE IF v[1] = 0 THEN st
                ELSE IF v[1] \in st.dropped THEN [st EXCEPT !.bad = @ \cup {<<"double drop", v[1]>>}]
                ELSE [st EXCEPT !.dropped = @ \cup {v[1]}]
+
+\* ghost: a value handed back to the caller (who then drops it)
+Ret(st, v) == IF v = Absent THEN st ELSE IF Kind = "null" THEN [st EXCEPT !.zharn = @ + 1] ELSE IF v[1] = 0 THEN st ELSE [st EXCEPT !.returned = @ \cup {v[1]}]
 
 Chan(st, k, id) == IF Trk = "none" \/ ~st.emit THEN st ELSE [st EXCEPT !.chan = Append(@, <<k, id>>)]
 
@@ -133,19 +140,19 @@ UClean(st, has) ==
              RECURSIVE D(_, _)
              D(s, k) == IF k > Len(ids) THEN s ELSE D(Drop(s, st.map[ids[k]]), k + 1)
          IN D([st EXCEPT !.map = <<>>], 1)
-    [] Kind = "null" -> st
+    [] Kind = "null" -> [st EXCEPT !.zlib = @ + Cardinality(has)]      \* remove(id) for every id, dropped at once
 
 \* -------------------------------------------------- what a sweep would see
-Get(st, id) == IF id \in st.mask
+Get(st, id) == IF id \in st.mask /\ id \notin st.dead
                THEN IF UGetChecked(st, id) THEN UGet(st, id) ELSE <<0 - 9, 0 - 9>>   \* would be undefined behaviour
                ELSE Absent
 
 Obs(st) ==
   LET ids == SeqOfSet(Ids) IN
   [ hs |-> [k \in 1..Len(ids) |-> H(ids[k])],
-    alive |-> [k \in 1..Len(ids) |-> TRUE],
-    walive |-> [k \in 1..Len(ids) |-> 1],
-    join |-> [k \in 1..Len(ids) |-> H(ids[k])],
+    alive |-> [k \in 1..Len(ids) |-> ids[k] \notin st.dead],
+    walive |-> [k \in 1..Len(ids) |-> IF ids[k] \in st.dead THEN 0 ELSE 1],
+    join |-> LET l == SeqOfSet(Ids \ st.dead) IN [k \in 1..Len(l) |-> H(l[k])],
     st |-> << IF Trk = "none"
               THEN [mask |-> SeqOfSet(st.mask), get |-> [k \in 1..Len(ids) |-> Get(st, ids[k])]]
               ELSE [mask |-> SeqOfSet(st.mask), get |-> [k \in 1..Len(ids) |-> Get(st, ids[k])], evs |-> st.chan] >> ]
@@ -157,7 +164,7 @@ Out(st, r) == [st |-> Read(st), evs |-> <<Ev(st, r)>>]
 
 \* ------------------------------------------------------------ operations
 NewC(st) == IF Kind = "null" THEN Dflt ELSE <<st.ncid + 1, st.nval + 1>>
-BumpC(st) == [st EXCEPT !.ncid = @ + 1, !.nval = @ + 1]
+BumpC(st) == [st EXCEPT !.ncid = @ + 1, !.nval = @ + 1, !.zc = IF Kind = "null" THEN @ + 1 ELSE @]
 NewV(st) == IF Kind = "null" THEN 0 ELSE st.nval + 1
 BumpV(st) == [st EXCEPT !.nval = @ + 1]
 
@@ -181,13 +188,13 @@ Exec(st, op) ==
          IF op.i \in st.mask
          THEN LET old == UGet(st0, op.i)
                   st1 == USet(Access(st0, op.i, TRUE), op.i, c)
-              IN Out(st1, SBase("insert", op.i, old, c, 0 - 1))
+              IN Out(Ret(st1, old), SBase("insert", op.i, old, c, 0 - 1))
          ELSE LET st1 == [UInsert(st0, op.i, c) EXCEPT !.mask = @ \cup {op.i}]
               IN Out(st1, SBase("insert", op.i, Absent, c, 0 - 1))
     [] op.o = "remove" ->      \* MaskedStorage::remove: mask first, then the value
          IF op.i \in st.mask
          THEN LET r == URemove([st EXCEPT !.mask = @ \ {op.i}], op.i)
-              IN Out(r.st, SBase("remove", op.i, r.v, Dflt, 0 - 1))
+              IN Out(Ret(r.st, r.v), SBase("remove", op.i, r.v, Dflt, 0 - 1))
          ELSE Out(st, SBase("remove", op.i, Absent, Dflt, 0 - 1))
     [] op.o = "clear" ->       \* take the mask, clean, restore an empty mask
          LET st1 == UClean([st EXCEPT !.mask = {}], st.mask)
@@ -198,7 +205,7 @@ Exec(st, op) ==
              RECURSIVE D(_, _, _)
              D(s, k, acc) == IF k > n THEN [st |-> s, items |-> acc]
                              ELSE LET r == URemove([s EXCEPT !.mask = @ \ {ids[k]}], ids[k])
-                                  IN D(r.st, k + 1, Append(acc, <<ids[k], r.v>>))
+                                  IN D(Ret(r.st, r.v), k + 1, Append(acc, <<ids[k], r.v>>))
              d == D(st, 1, <<>>)
          IN Out(d.st, [op |-> "WOp", k |-> "drain", s |-> 1, n |-> op.n, items |-> d.items])
     [] op.o = "joinmut" ->     \* (&mut storage).join(): AccessMut per member; written iff bit set
@@ -217,6 +224,51 @@ Exec(st, op) ==
     [] op.o = "setemit" ->
          Out([st EXCEPT !.emit = op.b], [op |-> "WOp", k |-> "setemit", s |-> 1, b |-> op.b])
 
+\* ------------------------------------------------------------- faults (C19)
+\* The k-th destructor call of a destroying operation panics; the rest of the
+\* operation is skipped except for what unwinding still does.  What the
+\* containers of std / hashbrown do with the remaining elements only affects
+\* leaks, which C19 allows: Vec::clear keeps dropping the rest; the loops written
+\* in specs (VecStorage::clean, NullStorage::clean) stop; maps leak the rest.
+UCleanFault(st, has, k) ==
+  CASE Kind = "vec" ->
+         LET RECURSIVE C(_, _, _)
+             C(s, i, n) == IF i >= s.vlen THEN s
+                           ELSE IF i \in has /\ s.slots[i][1] = "live"
+                                THEN LET s1 == Drop([s EXCEPT !.slots[i] = <<"moved", @[2]>>], s.slots[i][2])
+                                     IN IF n + 1 = k THEN s1 ELSE C(s1, i + 1, n + 1)
+                                ELSE C(s, i + 1, n)
+         IN C(st, 0, 0)
+    [] Kind = "map" ->
+         LET ids == SeqOfSet(DOMAIN st.map)
+             RECURSIVE D(_, _)
+             D(s, j) == IF j > Len(ids) \/ j > k THEN s ELSE D(Drop(s, st.map[ids[j]]), j + 1)
+         IN D([st EXCEPT !.map = <<>>], 1)
+    [] Kind = "null" -> [st EXCEPT !.zlib = @ + (IF k < Cardinality(has) THEN k ELSE Cardinality(has))]   \* the loop stops
+    [] OTHER -> UClean(st, has)       \* dense / defvec: Vec::clear drops everything
+
+Ledger(st) == [destroyed |-> SeqOfSet(st.dropped), returned |-> SeqOfSet(st.returned),
+               held |-> IF Kind = "null" THEN <<>> ELSE SeqOfSet((1..st.ncid) \ (st.dropped \cup st.returned)),
+               anomalies |-> IF st.bad = {} THEN <<>> ELSE <<"double drop">>, zc |-> st.zc, zlib |-> st.zlib, zharn |-> st.zharn]
+
+ExecFault(st, op) ==
+  CASE op.o = "clear_f" ->     \* MaskedStorage::clear with a panicking destructor
+         LET st1 == UCleanFault([st EXCEPT !.mask = {}, !.faulted = TRUE], st.mask, op.k)
+         IN Out(st1, [op |-> "Fault", in |-> "WOp", k |-> op.k, msg |-> "injected", ledger |-> Ledger(st1)])
+    [] op.o = "delete_f" ->    \* World::delete_entity: kill, then MaskedStorage::drop(id): bit first, then the value
+         LET st0 == [st EXCEPT !.dead = @ \cup {op.i}, !.faulted = (op.i \in st.mask) \/ @]
+             st1 == IF op.i \in st.mask
+                    THEN LET r == URemove([st0 EXCEPT !.mask = @ \ {op.i}], op.i) IN Drop(r.st, r.v)
+                    ELSE st0
+         IN IF op.i \in st.mask
+            THEN Out(st1, [op |-> "Fault", in |-> "Delete", k |-> 1, msg |-> "injected", ledger |-> Ledger(st1)])
+            ELSE Out(st1, [op |-> "Delete", h |-> H(op.i), ok |-> TRUE])
+
+\* dropping the world: Drop for MaskedStorage = clear()
+Teardown(st) ==
+  LET st1 == UClean([st EXCEPT !.mask = {}], st.mask)
+  IN [st |-> st1, evs |-> <<[op |-> "DropWorld", ledger |-> Ledger(st1), tfault |-> FALSE]>>]
+
 \* ------------------------------------------------- structural invariants
 Struct(st) ==
   /\ st.bad = {}
@@ -224,7 +276,7 @@ Struct(st) ==
   /\ Kind = "dense" =>
        /\ Len(st.data) = Len(st.eid) /\ Len(st.data) = Cardinality(st.mask)
        /\ \A k \in 1..Len(st.eid) : st.eid[k] \in st.mask /\ st.did[st.eid[k]] = k - 1
-  /\ Kind = "vec" => \A i \in 0..MaxId : (st.slots[i][1] = "live") => i \in st.mask
+  /\ (Kind = "vec" /\ ~st.faulted) => \A i \in 0..MaxId : (st.slots[i][1] = "live") => i \in st.mask
   /\ Kind = "defvec" => \A k \in 1..Len(st.dv) : (k - 1) \notin st.mask => st.dv[k] = Dflt
   /\ Kind = "map" => DOMAIN st.map = st.mask
   \* nothing a lookup can return has been destroyed
